@@ -22,6 +22,8 @@ pub fn query_names(m: &Model, universe: bool) -> Vec<String> {
     if !q.iter().any(|x| x == ABSENT) {
         q.push(ABSENT.to_string());
     }
+    // a second absent name, long and of mixed character width (error messages quote names)
+    q.push(absent_long(q.len()));
     q
 }
 
